@@ -13,6 +13,26 @@ TRUE = z3.BoolVal(True)
 FALSE = z3.BoolVal(False)
 
 
+class _Ctx:
+    """Definitional axioms of fresh array symbols created by the list operations below.  The executor drains
+    `pending` into the path condition after every expression; inside a quantifier body (`depth` > 0) a fresh symbol
+    could not depend on the bound variables, so a lambda term is used there instead."""
+    pending = []
+    depth = 0
+
+
+CTX = _Ctx()
+
+
+def mk_array(i, body, name='arr'):
+    """The array  i |-> body(i)."""
+    if CTX.depth > 0:
+        return z3.Lambda([i], body)
+    b = z3.Const(fresh_name(name), z3.ArraySort(z3.IntSort(), body.sort()))
+    CTX.pending.append(z3.ForAll([i], b[i] == body, patterns=[b[i]]))
+    return b
+
+
 class Unsupported(Exception):
     """The construct is outside the accepted subset: the function becomes out-of-subset for this run."""
 
@@ -122,7 +142,7 @@ def list_slice(v, lo, hi):
     b = clamp_slice_index(hi, ln, ln)
     new_len = z3.If(b > a, b - a, z3.IntVal(0))
     i = z3.Int(fresh_name('si'))
-    arr = z3.Lambda([i], list_arr(v)[i + a])
+    arr = mk_array(i, list_arr(v)[i + a], 'slice')
     return Val(v.ty, v.ty.mk(arr, new_len))
 
 
@@ -138,7 +158,7 @@ def list_remove_first(v, x):
     first = z3.And(0 <= k, k < ln, equal_terms(ty.elem, arr[k], xe),
                    z3.ForAll([m], z3.Implies(z3.And(0 <= m, m < k), z3.Not(equal_terms(ty.elem, arr[m], xe)))))
     i = z3.Int(fresh_name('ri'))
-    new_arr = z3.Lambda([i], z3.If(i < k, arr[i], arr[i + 1]))
+    new_arr = mk_array(i, z3.If(i < k, arr[i], arr[i + 1]), 'removed')
     out = Val(ty, ty.mk(new_arr, ln - 1))
     return out, present, [z3.Implies(present, first)], k
 
@@ -147,7 +167,7 @@ def list_concat(a, b):
     ty = a.ty
     la, lb = list_len(a), list_len(b)
     i = z3.Int(fresh_name('ci'))
-    arr = z3.Lambda([i], z3.If(i < la, list_arr(a)[i], list_arr(b)[i - la]))
+    arr = mk_array(i, z3.If(i < la, list_arr(a)[i], list_arr(b)[i - la]), 'concat')
     return Val(ty, ty.mk(arr, la + lb))
 
 
